@@ -200,3 +200,17 @@ CLAIMS["C20"] = {
     "technique": "static analysis: constant folding of literal tables + finite-group model (exhaustive), direction calculus "
                  "over accumulation loops, accepted-table lint, all-returns-guarded check",
 }
+
+CLAIMS["C12"] = {
+    "text": "Decides structural necessary conditions of DAG consistency under any edit history: package-wide, every raw "
+            "networkx mutation of a circuit's .dag is paired with the matching node_dict/edge_dict update in the same "
+            "CircuitDAG function (edge-attribute annotation is classified non-structural); add/remove/replace maintain the "
+            "same three node_dict key kinds; register sizes are written only by the register-adding API; edge splitting and "
+            "re-joining propagate key, reg and reg_type and remove exactly the split edge; sequence() is a topological order "
+            "consumed in order. Rules are over all functions that can edit a circuit, hence all histories. Does not decide "
+            "wire-is-a-single-path, sufficiency of find_incompatible_edges, or the depth recursion.",
+    "ref": "DESIGN.md §5.12",
+    "note": "Trusted: networkx MultiDiGraph semantics; nx.topological_sort.",
+    "technique": "static analysis: ownership/pairing lint over the package (who-may-mutate), sibling key-kind agreement, "
+                 "attribute-propagation check on edge splicing",
+}
